@@ -13,6 +13,11 @@ Re-read from /repo's current sources on every run:
   exactly that constant, the keyset cursor is the sequence of the row just yielded, the loop ends on a short page
   (`C13_tick_stream_shape`, model `WfModel/TickStream.lean`).
 
+* the idle marker the start query reads (`idle_release_runtime.py`): the idle announcement writes `idle_since` before the
+  event is published; `IdleReleaseExternalRunAdapter.send_event` clears it (`idle_since=None`) on the path of a run that is
+  in memory and reloads a released run, both before the tick is handed on; the reload clears it after `workflow.run`
+  (`C13_idle_mark_shape`, model `RowMark`).
+
 `WfProps/C13.lean` (`C13_source_shape`) pins these to what the model `WfModel/Replay.lean` does.
 """
 from __future__ import annotations
@@ -25,6 +30,7 @@ LEAN_MODULE = "GenReplay"
 PERSIST = "packages/llama-agents-server/src/llama_agents/server/_runtime/persistence_runtime.py"
 LOOP = "packages/llama-index-workflows/src/workflows/runtime/control_loop.py"
 SQLITE_STORE = "packages/llama-agents-server/src/llama_agents/server/_store/sqlite/sqlite_workflow_store.py"
+IDLE = "packages/llama-agents-server/src/llama_agents/server/_runtime/idle_release_runtime.py"
 PAGE_CONST = "_TICK_PAGE_SIZE"
 
 
@@ -122,6 +128,128 @@ def _stream_shape(notes: list[str]) -> dict:
     return res
 
 
+def _marker_write(n: ast.AST) -> str | None:
+    """`….update_handler_status(…, idle_since=X)`: "clear" for X = None, "set" for anything else; None: not such a call"""
+    if _call_name(n) != "update_handler_status":
+        return None
+    for kw in n.keywords:  # type: ignore[attr-defined]
+        if kw.arg == "idle_since":
+            return "clear" if isinstance(kw.value, ast.Constant) and kw.value.value is None else "set"
+    return None
+
+
+def _mentions(n: ast.AST, name: str) -> bool:
+    return any((isinstance(c, ast.Attribute) and c.attr == name) or (isinstance(c, ast.Name) and c.id == name) for c in ast.walk(n))
+
+
+def _active_test(test: ast.AST, aliases: dict | None = None) -> str | None:
+    """which branch of `if <test>` a run that is in memory takes: "body" for `x in …_active_run_ids`, "else" for `not in`
+    (`aliases`: local names assigned such a membership test)"""
+    neg = False
+    while True:
+        if isinstance(test, ast.UnaryOp) and isinstance(test.op, ast.Not):
+            neg = not neg
+            test = test.operand
+        elif isinstance(test, ast.Name) and aliases and test.id in aliases:
+            test = aliases[test.id]
+        else:
+            break
+    if isinstance(test, ast.Compare) and len(test.ops) == 1 and _mentions(test.comparators[0], "_active_run_ids"):
+        if isinstance(test.ops[0], ast.In):
+            return "else" if neg else "body"
+        if isinstance(test.ops[0], ast.NotIn):
+            return "body" if neg else "else"
+    return None
+
+
+def _walk_path(stmts: list, in_memory: bool, deliver: str, acc: list, aliases: dict | None = None, tree: ast.AST | None = None,
+               depth: int = 0) -> bool:
+    """the calls made, in order, by the path of a run that is (not) in memory through `stmts`, up to the call of `deliver`
+    (appended as "deliver"); True once the path is over (delivered / returned / raised).  Branches that do not test the
+    active set are not followed (a write inside one is conditional: recorded as "maybe:…")."""
+    aliases = {} if aliases is None else aliases
+    for st in stmts:
+        if isinstance(st, (ast.AsyncWith, ast.With)):
+            if _walk_path(st.body, in_memory, deliver, acc, aliases, tree, depth):
+                return True
+            continue
+        if isinstance(st, ast.Assign) and len(st.targets) == 1 and isinstance(st.targets[0], ast.Name) \
+                and _active_test(st.value, aliases) is not None and not any(isinstance(c, ast.Call) for c in ast.walk(st.value)):
+            aliases[st.targets[0].id] = st.value
+            continue
+        if isinstance(st, ast.If):
+            side = _active_test(st.test, aliases)
+            if side is not None:
+                take = st.body if (side == "body") == in_memory else st.orelse
+                if _walk_path(take, in_memory, deliver, acc, aliases, tree, depth):
+                    return True
+                continue
+            for c in ast.walk(st):
+                w = _marker_write(c)
+                if w is not None:
+                    acc.append("maybe:" + w)
+            continue
+        if isinstance(st, (ast.Return, ast.Raise)):
+            for c in ast.walk(st):
+                if _call_name(c) == deliver:
+                    acc.append("deliver")
+            return True
+        calls = sorted((c for c in ast.walk(st) if isinstance(c, ast.Call)), key=lambda c: (c.end_lineno or 0, c.end_col_offset or 0))
+        for c in calls:
+            w = _marker_write(c)
+            if w is not None:
+                acc.append(w)
+            elif _call_name(c) in ("_ensure_active_run_locked", "_ensure_active_run"):
+                acc.append("reload")
+                # what the callee does on this kind of run (e.g. an early return for a run in memory) is part of the path
+                callee = _find_def(tree, _call_name(c) or "", "IdleReleaseDecorator") if tree is not None and depth < 2 else None
+                if callee is not None:
+                    _walk_path(callee.body, in_memory, "\0", acc, {}, tree, depth + 1)  # type: ignore[attr-defined]
+            elif _call_name(c) == deliver and isinstance(c.func, ast.Attribute) and _mentions(c.func.value, "_decorated"):
+                acc.append("deliver")
+                return True
+    return False
+
+
+def _idle_mark_shape(notes: list[str]) -> dict:
+    res = {"idleAnnouncementMarksRow": False, "sendClearsMarkInMemory": False, "sendReloadsReleasedRun": False, "reloadClearsMark": False}
+    try:
+        tree = ast.parse(open(repo_path(IDLE)).read())
+    except (OSError, SyntaxError) as e:
+        notes.append(f"gen/replay: cannot parse the idle-release runtime: {e!r}")
+        return res
+    # ---- the announcement: idle_since is written, under `isinstance(event, WorkflowIdleEvent)`, before the event is handed on
+    fn = _find_def(tree, "write_to_event_stream", "_IdleReleaseInternalRunAdapter")
+    if fn is None:
+        notes.append("gen/replay: _IdleReleaseInternalRunAdapter.write_to_event_stream not found")
+    else:
+        sets = [c.lineno for i in ast.walk(fn) if isinstance(i, ast.If) and _mentions(i.test, "WorkflowIdleEvent")
+                for c in ast.walk(i) if _marker_write(c) == "set"]
+        pub = [c.lineno for c in ast.walk(fn) if _call_name(c) == "write_to_event_stream"]
+        res["idleAnnouncementMarksRow"] = bool(sets) and bool(pub) and min(sets) < min(pub)
+    # ---- send_event: what happens before the tick is handed to the decorated adapter, per kind of run
+    fn = _find_def(tree, "send_event", "IdleReleaseExternalRunAdapter")
+    if fn is None:
+        notes.append("gen/replay: IdleReleaseExternalRunAdapter.send_event not found")
+    else:
+        mem: list = []
+        rel: list = []
+        _walk_path(fn.body, True, "send_event", mem, None, tree)  # type: ignore[attr-defined]
+        _walk_path(fn.body, False, "send_event", rel, None, tree)  # type: ignore[attr-defined]
+        res["sendClearsMarkInMemory"] = "deliver" in mem and "clear" in mem[: mem.index("deliver")] and "set" not in mem and "maybe:set" not in mem
+        res["sendReloadsReleasedRun"] = "deliver" in rel and "reload" in rel[: rel.index("deliver")]
+    # ---- the reload: idle_since cleared after the run was started again, on the function's main path
+    fn = _find_def(tree, "_ensure_active_run_locked", "IdleReleaseDecorator")
+    if fn is None:
+        notes.append("gen/replay: IdleReleaseDecorator._ensure_active_run_locked not found")
+    else:
+        top = [st for st in fn.body if not isinstance(st, ast.If)]  # type: ignore[attr-defined]
+        runs = [c.lineno for st in top for c in ast.walk(st) if _call_name(c) == "run"]
+        clears = [c.lineno for st in top for c in ast.walk(st) if _marker_write(c) == "clear"]
+        res["reloadClearsMark"] = bool(runs) and bool(clears) and min(runs) < max(clears)
+    return res
+
+
 def _find_def(tree: ast.AST, name: str, cls: str | None = None) -> ast.AST | None:
     for n in ast.walk(tree):
         if cls is not None:
@@ -154,6 +282,7 @@ def extract(notes: list[str]) -> dict:
                  "replayReducesPerTick": 999, "replayLoopHasEarlyExit": True, "persistBeforeCommands": False,
                  "validatesBeforeReplay": False}
     res.update(_stream_shape(notes))
+    res.update(_idle_mark_shape(notes))
     try:
         ptree = ast.parse(open(repo_path(PERSIST)).read())
         ltree = ast.parse(open(repo_path(LOOP)).read())
@@ -266,6 +395,14 @@ def generate(notes: list[str]) -> list[str]:
         f"def streamCursorIsLastYielded : Bool := {b(r['streamCursorIsLastYielded'])}",
         "/-- `if len(rows) < _TICK_PAGE_SIZE: return` is the loop's exit -/",
         f"def streamStopsOnShortPage : Bool := {b(r['streamStopsOnShortPage'])}",
+        "/-- the idle announcement writes `idle_since` before the `WorkflowIdleEvent` is published -/",
+        f"def idleAnnouncementMarksRow : Bool := {b(r['idleAnnouncementMarksRow'])}",
+        "/-- `IdleReleaseExternalRunAdapter.send_event`, run in memory: `idle_since=None` is written before the tick is handed on -/",
+        f"def sendClearsMarkInMemory : Bool := {b(r['sendClearsMarkInMemory'])}",
+        "/-- `IdleReleaseExternalRunAdapter.send_event`, run released: it is reloaded before the tick is handed on -/",
+        f"def sendReloadsReleasedRun : Bool := {b(r['sendReloadsReleasedRun'])}",
+        "/-- `_ensure_active_run_locked` writes `idle_since=None` after `workflow.run` on its main path -/",
+        f"def reloadClearsMark : Bool := {b(r['reloadClearsMark'])}",
         "",
         "end Engine.GenReplay",
     ]
